@@ -30,6 +30,11 @@
 
 #define NONE 0xFFFFFFFFu
 
+/* not reachable from the functions under test; keeps the native link whole */
+int sqfs_id_table_index_to_id(const sqfs_id_table_t *tbl, sqfs_u16 index,
+			      sqfs_u32 *out)
+{ (void)tbl; (void)index; (void)out; return SQFS_ERROR_OUT_OF_BOUNDS; }
+
 typedef struct {
 	int kind, ext;
 	sqfs_u64 nlink, size, start_block, parent, offset;
@@ -211,6 +216,9 @@ static void fill(void)
 
 #define VALID (TYPE >= 1 && TYPE <= 14)
 #define ISFILE (TYPE == 2 || TYPE == 9)
+#define ISEXT (TYPE >= 8 && TYPE <= 14)
+/* cover points must be reachable in every case: state them per layout */
+#define COVER_IF(applies, c) VERIF_COVER(!(applies) || (c))
 
 void harness(void)
 {
@@ -226,65 +234,68 @@ void harness(void)
 	case 0:
 		ret = sqfs_inode_make_basic(&ino);
 		vb = view(&ino, &b);
-		if (VALID) {
+#if VALID
+		{
 			VERIF_ASSERT(ret == 0 && va == 0 && vb == 0,
 				     "C03.inode.kind.status");
 			VERIF_ASSERT(same_values(&a, &b),
 				     "C03.inode.kind.values_preserved");
 			VERIF_ASSERT((b.ext == 0) == fits_basic(&a),
 				     "C03.inode.kind.basic_iff_fits");
-			VERIF_COVER(a.ext == 1 && b.ext == 0);
-			VERIF_COVER(a.ext == 1 && b.ext == 1);
+			COVER_IF(ISEXT, a.ext == 1 && b.ext == 0);
+			COVER_IF(ISEXT, a.ext == 1 && b.ext == 1);
+			COVER_IF(!ISEXT, b.ext == 0);
 		}
+#endif
 		break;
 	case 1:
 		ret = sqfs_inode_make_extended(&ino);
 		vb = view(&ino, &b);
-		if (VALID) {
+#if VALID
+		{
 			VERIF_ASSERT(ret == 0 && vb == 0,
 				     "C03.inode.kind.status");
 			VERIF_ASSERT(same_values(&a, &b),
 				     "C03.inode.kind.values_preserved");
 			VERIF_ASSERT(b.ext == 1, "C03.inode.kind.extended");
-			VERIF_COVER(a.ext == 0);
+			COVER_IF(!ISEXT, a.ext == 0 && b.ext == 1);
+			COVER_IF(ISEXT, a.ext == 1 && b.ext == 1);
 		}
+#endif
 		break;
 	case 2:
 		ret = sqfs_inode_set_file_size(&ino, arg);
 		vb = view(&ino, &b);
-		if (VALID && ISFILE) {
-			VERIF_ASSERT(ret == 0 && vb == 0,
-				     "C03.inode.kind.status");
-			a.file_size = arg;
-			VERIF_ASSERT(same_values(&a, &b),
-				     "C03.inode.kind.set_readback");
-			VERIF_COVER(b.ext == 0);
-			VERIF_COVER(b.ext == 1 && arg > 0xFFFFFFFFu);
-		} else if (VALID) {
-			VERIF_ASSERT(ret == SQFS_ERROR_NOT_FILE,
-				     "C03.inode.kind.status");
-		}
+#if VALID && ISFILE
+		VERIF_ASSERT(ret == 0 && vb == 0, "C03.inode.kind.status");
+		a.file_size = arg;
+		VERIF_ASSERT(same_values(&a, &b), "C03.inode.kind.set_readback");
+		VERIF_COVER(b.ext == 0);
+		VERIF_COVER(b.ext == 1 && arg > 0xFFFFFFFFu);
+#elif VALID
+		VERIF_ASSERT(ret == SQFS_ERROR_NOT_FILE, "C03.inode.kind.status");
+		VERIF_COVER(ret == SQFS_ERROR_NOT_FILE);
+#endif
 		break;
 	case 3:
 		ret = sqfs_inode_set_file_block_start(&ino, arg);
 		vb = view(&ino, &b);
-		if (VALID && ISFILE) {
-			VERIF_ASSERT(ret == 0 && vb == 0,
-				     "C03.inode.kind.status");
-			a.blocks_start = arg;
-			VERIF_ASSERT(same_values(&a, &b),
-				     "C03.inode.kind.set_readback");
-			VERIF_COVER(b.ext == 0);
-			VERIF_COVER(b.ext == 1 && arg > 0xFFFFFFFFu);
-		} else if (VALID) {
-			VERIF_ASSERT(ret == SQFS_ERROR_NOT_FILE,
-				     "C03.inode.kind.status");
-		}
+#if VALID && ISFILE
+		VERIF_ASSERT(ret == 0 && vb == 0, "C03.inode.kind.status");
+		a.blocks_start = arg;
+		VERIF_ASSERT(same_values(&a, &b), "C03.inode.kind.set_readback");
+		VERIF_COVER(b.ext == 0);
+		VERIF_COVER(b.ext == 1 && arg > 0xFFFFFFFFu);
+#elif VALID
+		VERIF_ASSERT(ret == SQFS_ERROR_NOT_FILE, "C03.inode.kind.status");
+		VERIF_COVER(ret == SQFS_ERROR_NOT_FILE);
+#endif
 		break;
 	default:
 		ret = sqfs_inode_set_xattr_index(&ino, (sqfs_u32)arg);
 		vb = view(&ino, &b);
-		if (VALID) {
+#if VALID
+		{
 			VERIF_ASSERT(ret == 0 && vb == 0,
 				     "C03.inode.kind.status");
 			if ((sqfs_u32)arg != NONE || a.ext)
@@ -294,11 +305,14 @@ void harness(void)
 			VERIF_ASSERT(b.ext == 1 || b.xattr == NONE,
 				     "C03.inode.kind.extended");
 			VERIF_COVER(b.ext == 1 && (sqfs_u32)arg != NONE);
+			COVER_IF(!ISEXT, b.ext == 0);
 		}
+#endif
 		break;
 	}
 
-	if (!VALID) {
+#if !VALID
+	{
 		VERIF_ASSERT(va == -1, "C03.inode.kind.status");
 		if (op != 2 && op != 3)
 			VERIF_ASSERT(ret == SQFS_ERROR_CORRUPTED,
@@ -308,8 +322,9 @@ void harness(void)
 				     "C03.inode.kind.status");
 		VERIF_ASSERT(memcmp(&before, &ino, sizeof(ino)) == 0,
 			     "C03.inode.kind.status");
-		VERIF_COVER(ret != 0);
+		VERIF_COVER(ret == SQFS_ERROR_CORRUPTED);
 	}
+#endif
 	VERIF_COVER(op == 0);
 	VERIF_COVER(op == 4);
 }
